@@ -249,6 +249,11 @@ def generate(rng, tier):
     cases += [_gen_eig(rng) for _ in range(90 * k)]
     cases += [_gen_ens(rng) for _ in range(90 * k)]
     cases += [_gen_imp(rng) for _ in range(40 * k)]
+    # the sparse >= 1000-state branch of eigenspectrum (ARPACK): a fast-mixing chain crossed with a fast
+    # two-state flip, so that a negative eigenvalue of large magnitude (-0.96) competes with the positive top
+    for _ in range(1 if tier == "quick" else 3):
+        cases.append({"kind": "bigeig", "m": rng.choice([500, 520, 601]), "seed": rng.randrange(10 ** 6),
+                      "n_eigs": rng.choice([3, 4, 5]), "fmt": rng.choice(["csr_matrix", "coo_matrix"])})
     if tier == "thorough":
         # small scope: every configuration of the estimator on a few fixed assignment sets
         import itertools
@@ -472,8 +477,55 @@ def _run_imp(c):
     return out
 
 
+def _run_bigeig(c):
+    import scipy.sparse as sp
+    from enspara.msm.transition_matrices import eigenspectrum, eq_probs
+    rs = np.random.RandomState(c["seed"])
+    m = c["m"]
+    rows, cols, vals = [], [], []
+    for i in range(m):
+        for j, w in [(i, 5), ((i + 1) % m, 2)] + [(int(rs.randint(m)), 1) for _ in range(4)]:
+            rows.append(i); cols.append(j); vals.append(w + rs.randint(0, 6))
+    B = sp.coo_matrix((np.array(vals, dtype=float), (rows, cols)), shape=(m, m)).tocsr()
+    B = sp.diags(1.0 / np.asarray(B.sum(axis=1)).ravel()) @ B
+    Fl = sp.csr_matrix(np.array([[0.02, 0.98], [0.98, 0.02]]))
+    T = sp.kron(Fl, B).tocsr()
+    out = {}
+    try:
+        vs, vecs = eigenspectrum(getattr(sp, c["fmt"])(T), n_eigs=c["n_eigs"])
+        vd, vecd = eigenspectrum(T.toarray(), n_eigs=c["n_eigs"])
+        pi = vecs[:, 0]
+        out = {"vals": [float(x) for x in vs], "dense": [float(x) for x in vd],
+               "resid": float(np.abs(pi @ T.toarray() - pi).max()), "sum": float(pi.sum()), "min": float(pi.min()),
+               "eqp": float(np.abs(eq_probs(getattr(sp, c["fmt"])(T)) - vecd[:, 0]).max())}
+    except Exception as ex:
+        out = {"err": type(ex).__name__, "msg": str(ex)[:200]}
+    return out
+
+
+def _oracle_bigeig(c, r):
+    if "err" in r:
+        return [("eig-no-value", "eigenspectrum on a %d-state sparse matrix raised %s %s" % (2 * c["m"], r["err"], r.get("msg")))]
+    out = []
+    v = r["vals"]
+    if any(b > a + 1e-9 for a, b in zip(v, v[1:])):
+        out.append(("eig-descending", "values %s" % v))
+    if abs(v[0] - 1) > 1e-8:
+        out.append(("eig-leading-one", "leading value %r" % v[0]))
+    if max(abs(a - b) for a, b in zip(v, r["dense"])) > 1e-7:
+        out.append(("eig-sparse-vs-dense", "sparse %s vs dense %s" % (v, r["dense"])))
+    if r["resid"] > 1e-8 or abs(r["sum"] - 1) > 1e-8 or r["min"] < -1e-10:
+        out.append(("eig-stationary", "first vector: |pi T - pi| = %.2e, sum %.8f, min %.2e" % (r["resid"], r["sum"], r["min"])))
+    if r["eqp"] > 1e-8:
+        out.append(("eig-stationary", "eq_probs(sparse) differs from the dense stationary vector by %.2e" % r["eqp"]))
+    return out
+
+
 def run_impl(c):
     k = c["kind"]
+    if k == "bigeig":
+        with np.errstate(all="ignore"):
+            return _run_bigeig(c)
     with np.errstate(all="ignore"):
         if k == "fit":
             return _run_fit(c)
@@ -658,6 +710,8 @@ def _oracle_imp(c, r):
 def oracle(c, r):
     if "err" in r and str(r["err"]).startswith("Unexpected"):
         return [("harness", "run_impl failed: %s %s" % (r["err"], r.get("msg")))]
+    if c["kind"] == "bigeig":
+        return _oracle_bigeig(c, r)
     return {"fit": _oracle_fit, "eig": _oracle_eig, "ens": _oracle_ens, "imp": _oracle_imp}[c["kind"]](c, r)
 
 
@@ -773,6 +827,8 @@ def _tie(c, r):
 
 
 def coq_check(c, r):
+    if c["kind"] == "bigeig":
+        return None        # 1000+ states: oracle only
     if "err" in r and str(r["err"]).startswith("Unexpected"):
         return None
     k = c["kind"]
@@ -794,6 +850,8 @@ def coq_check(c, r):
 
 def coq_show(c):
     k = c["kind"]
+    if k == "bigeig":
+        return "tt"
     if k == "fit":
         try:
             r = run_impl(c)
@@ -810,6 +868,8 @@ def coq_show(c):
 
 def nontrivial(c, r):
     k = c["kind"]
+    if k == "bigeig":
+        return "err" not in r
     if k == "fit":
         e = r.get("est", {})
         return "err" not in e and len(e["C"]) >= 2 and sum(_F(x) for row in e["C"] for x in row) >= 3
@@ -823,6 +883,8 @@ def nontrivial(c, r):
 def tags(c, r):
     k = c["kind"]
     t = ["kind:" + k]
+    if k == "bigeig":
+        return t + ["arpack-1000-states"]
     if k == "fit":
         t += ["builder:" + c["builder"], "by:" + c["by"], "trim-on" if c["trim"] else "trim-off",
               "sliding" if c["sliding"] else "strided", "maxn-given" if c["maxn"] is not None else "maxn-inferred",
@@ -865,7 +927,7 @@ def tags(c, r):
     return t
 
 
-ESSENTIAL_TAGS = ["kind:fit", "kind:eig", "kind:ens", "kind:imp", "builder:normalize", "builder:transpose", "builder:mle",
+ESSENTIAL_TAGS = ["arpack-1000-states", "kind:fit", "kind:eig", "kind:ens", "kind:imp", "builder:normalize", "builder:transpose", "builder:mle",
                   "by:name", "by:fn", "trim-on", "trim-off", "sliding", "strided", "maxn-given", "maxn-inferred",
                   "lag=1", "lag=2", "lag=3", "lag=4", "fit-rejects", "trim-removes-states", "trim-renumbers",
                   "roundtrip-run", "eig-complex-pair", "eig-negative-real", "eig-sparse", "eig-dense", "n_eigs:lt2",
